@@ -222,6 +222,11 @@ func (e *Enc) assertOb(name string, goal Term, desc string, pos token.Pos) {
 	if e.discovery {
 		return
 	}
+	if e.fc != nil && e.fc.AnchorsOnly && (strings.HasPrefix(name, "safe:") || strings.HasPrefix(name, "pre@")) {
+		e.assume(goal, "assumed (anchorsonly): "+desc)
+		e.assumption("safety checks and callee preconditions in " + e.fnLabel + " are assumed, only its anchored assertions are proved (anchorsonly)")
+		return
+	}
 	f := implies(e.curR, goal)
 	var p token.Position
 	if pos.IsValid() {
